@@ -99,7 +99,7 @@ type CpSpec struct {
 // ProofSpec says how to build the proof. The base is the correct proof between
 // From and To (default cur→sub) on branch Branch (default: the submitted branch).
 type ProofSpec struct {
-	Kind   string    `json:"kind"` // correct | empty | drop | dup | flip | extra | swap | short | long | random | replay
+	Kind   string    `json:"kind"` // correct | empty | drop | dup | flip | extra | swap | short | long | random | many | padded | replay
 	I      int       `json:"i,omitempty"`
 	J      int       `json:"j,omitempty"`
 	From   *SizeSpec `json:"from,omitempty"`
@@ -963,6 +963,17 @@ func mangleProof(base [][]byte, ps ProofSpec, e *Env) [][]byte {
 		q := make([][]byte, n)
 		for i := range q {
 			q[i] = rnd(10 + i)
+		}
+		return q
+	case "many", "padded":
+		// proofs longer than any valid one (a valid proof has < 64 nodes)
+		n := []int{62, 63, 64, 65, 70, 100}[idx(6)]
+		var q [][]byte
+		if ps.Kind == "padded" {
+			q = p
+		}
+		for i := 0; len(q) < n; i++ {
+			q = append(q, rnd(100+i))
 		}
 		return q
 	case "replay":
